@@ -183,7 +183,44 @@ type connScript struct {
 	// writeWait > 0 (enumerated limit cases only): how long the server may be stuck writing a stream that the
 	// client is entitled to stop reading, before the connection is judged on what arrived so far.
 	writeWait time.Duration
+	// clientPk[i] != nil: client packet i is sent as that Packet value, which other sends of this or of another
+	// connection of the case may use as well (one NewPacket call, several Send calls). nil or a short slice: a
+	// fresh NewPacket for the send.
+	clientPk []*sharedPacket
+	// The consumer of Responses() starts reading consumerDelay after the connection was made and sleeps
+	// consumerPause after every packet it took (pauseFirst > 0: only after each of the first so many packets).
+	// Neither is ever a violation by itself: the packets have to arrive all the same, however long it takes
+	// the consumer to pick them up.
+	consumerDelay, consumerPause time.Duration
+	pauseFirst                   int
 }
+
+// sharedPacket is one liteclient.Packet value (the result of one NewPacket call) that the scripts of a case
+// hand to Connection.Send any number of times, on one connection or on several.
+type sharedPacket struct {
+	id      int
+	payload []byte
+	uses    int
+	once    sync.Once
+	pk      liteclient.Packet
+	err     error
+}
+
+func (sp *sharedPacket) get() (liteclient.Packet, error) {
+	sp.once.Do(func() { sp.pk, sp.err = liteclient.NewPacket(append([]byte{}, sp.payload...)) })
+	return sp.pk, sp.err
+}
+
+// packetPool holds the Packet values of one case.
+type packetPool struct{ items []*sharedPacket }
+
+func (pp *packetPool) add(payload []byte) *sharedPacket {
+	sp := &sharedPacket{id: len(pp.items), payload: payload, uses: 1}
+	pp.items = append(pp.items, sp)
+	return sp
+}
+
+const poolMaxPayload = 1 << 20 // larger packets are not sent a second time (cost only)
 
 func (s *connScript) String() string {
 	var sb strings.Builder
@@ -200,9 +237,21 @@ func (s *connScript) String() string {
 	if s.connectMs > 0 {
 		fmt.Fprintf(&sb, "; connect context expires after %d ms, client traffic starts after that", s.connectMs)
 	}
+	if s.consumerDelay > 0 {
+		fmt.Fprintf(&sb, "; Responses() is read from %v after the connect on", s.consumerDelay)
+	}
+	if s.consumerPause > 0 {
+		fmt.Fprintf(&sb, "; the reader of Responses() sleeps %v after every packet", s.consumerPause)
+		if s.pauseFirst > 0 {
+			fmt.Fprintf(&sb, " up to packet %d", s.pauseFirst)
+		}
+	}
 	sb.WriteString("; client->server")
-	for _, p := range s.client {
+	for i, p := range s.client {
 		fmt.Fprintf(&sb, " %d", len(p))
+		if i < len(s.clientPk) && s.clientPk[i] != nil && s.clientPk[i].uses > 1 {
+			fmt.Fprintf(&sb, "(Packet value %d, sent %d times in this case)", s.clientPk[i].id, s.clientPk[i].uses)
+		}
 	}
 	sb.WriteString("; cuts")
 	for _, cut := range s.plan.Cuts {
@@ -217,9 +266,17 @@ func (s *connScript) String() string {
 	return sb.String()
 }
 
-func drawConnScript(c *core.Ctx, big bool) *connScript {
+// drawConnScript draws one connection. pool (may be nil) collects the Packet values of the case: a client
+// packet is, once in five, a Packet value that was sent before (on this connection or on an earlier one of
+// the case). burst: many more packets, and a consumer of Responses() that starts late or reads slowly.
+func drawConnScript(c *core.Ctx, big, burst bool, pool *packetPool) *connScript {
 	s := &connScript{keySeed: c.U64("keyseed")}
-	n := c.Range("npackets", 1, 40)
+	var n int
+	if burst {
+		n = c.Range("npackets.burst", 66, 300)
+	} else {
+		n = c.Range("npackets", 1, 40)
+	}
 	bigAt := -1
 	if big {
 		bigAt = c.Choose("bigat", n)
@@ -231,6 +288,13 @@ func drawConnScript(c *core.Ctx, big bool) *connScript {
 		if fromServer && rare(c, "pong", 10) {
 			s.server = append(s.server, srvFrame{payload: adnlsrv.Pong(c.U64("pong.id")), pong: true})
 			s.layout = append(s.layout, 12)
+			continue
+		}
+		if !fromServer && pool != nil && len(pool.items) > 0 && i != bigAt && rare(c, "reuse", 5) {
+			sp := pool.items[c.Choose("reuse.which", len(pool.items))]
+			sp.uses++
+			s.client = append(s.client, sp.payload)
+			s.clientPk = append(s.clientPk, sp)
 			continue
 		}
 		p := c.Content("payload", drawSize(c, "size", i == bigAt))
@@ -245,9 +309,21 @@ func drawConnScript(c *core.Ctx, big bool) *connScript {
 			s.layout = append(s.layout, len(p))
 		} else {
 			s.client = append(s.client, p)
+			if pool != nil && len(p) <= poolMaxPayload {
+				s.clientPk = append(s.clientPk, pool.add(p))
+			} else {
+				s.clientPk = append(s.clientPk, nil)
+			}
 		}
 	}
 	s.plan = drawPlan(c, s.layout, true)
+	if burst {
+		if c.Bool("consumer.late") {
+			s.consumerDelay = time.Duration(c.Range("consumer.delay.ms", 100, 300)) * time.Millisecond
+		} else {
+			s.consumerPause = time.Duration(c.Range("consumer.pause.ms", 1, 3)) * time.Millisecond
+		}
+	}
 	s.senders = 1
 	if len(s.client) >= 2 && rare(c, "senders", 4) {
 		s.senders = c.Range("senders.n", 2, 4)
@@ -425,12 +501,24 @@ func runConn(s *connScript) (err error) {
 	consumerDone := make(chan struct{})
 	go func() {
 		defer close(consumerDone)
+		if s.consumerDelay > 0 {
+			select {
+			case <-time.After(s.consumerDelay):
+			case <-stop:
+				return
+			}
+		}
+		taken := 0
 		for {
 			select {
 			case p := <-conn.Responses():
 				gmu.Lock()
 				got = append(got, p.Payload)
 				gmu.Unlock()
+				taken++
+				if s.consumerPause > 0 && (s.pauseFirst == 0 || taken <= s.pauseFirst) {
+					time.Sleep(s.consumerPause)
+				}
 			case <-stop:
 				return
 			}
@@ -453,7 +541,13 @@ func runConn(s *connScript) (err error) {
 		go func(g int) {
 			defer sendWG.Done()
 			for i := g; i < len(s.client); i += nSenders {
-				pk, e := liteclient.NewPacket(append([]byte{}, s.client[i]...))
+				var pk liteclient.Packet
+				var e error
+				if i < len(s.clientPk) && s.clientPk[i] != nil {
+					pk, e = s.clientPk[i].get() // one Packet value, possibly handed to Send before
+				} else {
+					pk, e = liteclient.NewPacket(append([]byte{}, s.client[i]...))
+				}
 				if e == nil {
 					e = conn.Send(pk)
 				}
@@ -512,7 +606,20 @@ func runConn(s *connScript) (err error) {
 		ss.mu.Unlock()
 		return report("the server received %d of the %d packets the client sent (server read error: %v)", n, len(s.client), rerr)
 	}
-	delivered := waitFor(func() bool { return gotCount() >= len(want) })
+	// The wait for Responses() is measured from the last packet that came out: a consumer that is slow (by
+	// script or because the machine is busy) is never a violation, only packets that do not come at all are.
+	delivered := func() bool {
+		last, lastAt := gotCount(), time.Now()
+		for last < len(want) {
+			time.Sleep(500 * time.Microsecond)
+			if n := gotCount(); n != last {
+				last, lastAt = n, time.Now()
+			} else if time.Since(lastAt) > waitLimit+s.consumerDelay {
+				return false
+			}
+		}
+		return true
+	}()
 	if faulty {
 		release() // end of stream: whatever the client still holds back must surface now
 		if blocked {
@@ -583,7 +690,7 @@ func runConn(s *connScript) (err error) {
 		}
 	}
 	if !delivered || len(final) < len(want) {
-		return report("Responses() delivered %d of the %d packets that were sent intact within %v", len(final), len(want), waitLimit)
+		return report("Responses() delivered %d of the %d packets that were sent intact; no further packet came for %v", len(final), len(want), waitLimit)
 	}
 	return nil
 }
@@ -594,12 +701,17 @@ var connCheck = &core.Check{Name: "c11/conn", Quick: 100, Thorough: 6000, Fn: fu
 	if big {
 		n = 1
 	}
+	burst := !big && core.Thorough() && rare(c, "burst", 40)
+	if burst && n > 3 {
+		n = 3
+	}
+	pool := &packetPool{}
 	scripts := make([]*connScript, n)
 	nontrivial := false
 	var key []string
 	packets, faults := 0, 0
 	for i := range scripts {
-		s := drawConnScript(c, big)
+		s := drawConnScript(c, big, burst, pool)
 		scripts[i] = s
 		classifyPlan(c, s.layout, s.plan)
 		if len(s.order) >= 3 && splitsInsideFrames(s.layout, s.plan.Cuts) >= 1 || s.plan.Fault.Kind != adnlsrv.FaultNone {
@@ -609,6 +721,8 @@ var connCheck = &core.Check{Name: "c11/conn", Quick: 100, Thorough: 6000, Fn: fu
 			faults++
 		}
 		packets += len(s.order)
+	}
+	for i, s := range scripts { // after all draws: the texts name the Packet values that are sent again later
 		key = append(key, s.String())
 		if i < 3 {
 			c.Note(fmt.Sprintf("connection %d", i), s.String())
@@ -617,6 +731,36 @@ var connCheck = &core.Check{Name: "c11/conn", Quick: 100, Thorough: 6000, Fn: fu
 	c.Note("connections", n)
 	if big {
 		c.Class("8 MiB boundary packet")
+	}
+	if burst {
+		c.Class("burst of packets, Responses() read late or slowly")
+	}
+	twice, across := false, false
+	for _, sp := range pool.items {
+		on := 0
+		for _, s := range scripts {
+			k := 0
+			for _, q := range s.clientPk {
+				if q == sp {
+					k++
+				}
+			}
+			if k > 0 {
+				on++
+			}
+			if k > 1 {
+				twice = true
+			}
+		}
+		if on > 1 {
+			across = true
+		}
+	}
+	if twice {
+		c.Class("one Packet value sent more than once on a connection")
+	}
+	if across {
+		c.Class("one Packet value sent on several connections")
 	}
 	if nontrivial {
 		c.NonTrivial(strings.Join(key, "|"))
@@ -896,4 +1040,6 @@ func TestEnum(t *testing.T) {
 		})
 }
 
-func TestReplay(t *testing.T) { core.Replay(t, parseCheck, connCheck, gridCheck, limitCheck) }
+func TestReplay(t *testing.T) {
+	core.Replay(t, parseCheck, connCheck, gridCheck, limitCheck, burstCheck)
+}
